@@ -120,6 +120,8 @@ class Gram:
 
     def errname(self, i):
         d = self.disp[i - 1] if i - 1 < len(self.disp) else ""
+        if d and d[0] in "\"'`":
+            return d                    # a complete spelling (the display name IS the source text of the string literal)
         return ('"%s"' % d) if d else self.rname(i)
 
     # ---- scoping (builder.writeExprCode / the documentation's "same scope") ----
@@ -135,7 +137,7 @@ class Gram:
             elif k in ("state", "andcode", "notcode"):
                 n["args"] = list(stack[-1])
             elif k == "label":
-                if n["lab"] in stack[-1]:          # labels of one scope are distinct (precondition of C04); other scopes may reuse a name
+                if n["lab"] in stack[-1] and not getattr(self, "dup_labels", False):   # labels of one scope are distinct (precondition of C04); other scopes may reuse a name
                     self.labctr += 1
                     n["lab"] = "u%d" % self.labctr
                 stack[-1].append(n["lab"])
@@ -267,7 +269,7 @@ class Gram:
         out = ["%s <- v:%s { return top(%s, v) }\n" % (self.sname(), self.rname(1), self.recv)]
         for i, root in enumerate(self.rules):
             d = self.disp[i] if i < len(self.disp) else ""
-            out.append("%s%s <- %s\n" % (self.rname(i + 1), (' "%s"' % d) if d else "", self.render(root, -1)))
+            out.append("%s%s <- %s\n" % (self.rname(i + 1), ((" " + d) if d[0] in "\"'`" else ' "%s"' % d) if d else "", self.render(root, -1)))
         ol = getattr(self, "oneline", None)
         if ol is None:
             ol = self.gi % 7 == 3                   # every seventh group of every family, unless a check decides itself
